@@ -18,7 +18,7 @@ prop("C08", pkg="c08",
      vlimit_gb=16,
      technique="property-based testing (rapid) + exhaustive prefix/header-mutation enumeration per generated encoding, validity and metamorphic oracles, "
                "out-of-process supervision with address-space limit and stall watchdog",
-     level_text="Exploration: ~14 M decode calls per quick run (~115 M thorough): no panic or fatal fault; every proper prefix of a valid encoding gives errors.Is(err, io.ErrUnexpectedEOF) "
+     level_text="Exploration: ~11 M decode calls per quick run (~87 M thorough): no panic or fatal fault; every proper prefix of a valid encoding gives errors.Is(err, io.ErrUnexpectedEOF) "
                 "(io.EOF for empty input); negative / oversized counts give an error; TotalAlloc delta <= 64 MiB for inputs <= 4 KiB; undeclared fields of any type and "
                 "nesting leave the decoded value unchanged; trailing bytes, missing required fields (*MissingField) and strict-mode wire type changes (*TypeMismatch) are "
                 "reported, the latter two with errors.As and, for MissingField, the id of the missing field. A call on a <= 4 KiB input that has not returned after 20 s "
